@@ -767,7 +767,7 @@ def select_cases(probes, n, novel_share=0.3, t_cap=200_000, coin_share=0.15):
     coin = coin[:int(n * coin_share)]
     extra = set(novel) | set(coin)
     rest = [p['idx'] for p in probes if p['idx'] not in extra][:n - len(extra)]
-    return sorted(set(rest) | extra), novel + coin
+    return sorted(set(rest) | extra), novel, coin
 
 
 def _same_ref(a, b):
@@ -1123,6 +1123,22 @@ def _find(R, text, raw, o, target, event, order, driver, flags, mech, ks, force_
                          count_stdout_closed=bool(res.get('count_stdout_closed')))
                 return k, v
     return None
+
+
+def confirm_pristine(R, seed, viol, tier):
+    """does this one interrupted execution show its violation class when it is the ONLY interrupted count the process
+    has ever run?  Runs in a forked child.  A case explores thousands of interrupted counts in one process; on a tree
+    where an interrupted count leaves state behind, later executions of the case can fail although each of them, alone,
+    would not -- that is history dependence (C20's subject), and must not be reported under C19."""
+    signal.signal(signal.SIGINT, signal.default_int_handler)
+    idx = viol['idx']
+    _, o, text, raw, _ = make_case(seed, idx, tier)
+    _core.SINK_TTY = case_tty(idx)
+    flags = set(viol['flags']) if viol.get('flags') else None
+    force_closed = bool(viol.get('count_stdout_closed')) and viol['driver'] == 'main'
+    got = _find(R, text, raw, o, vclass(viol), viol['event'], tuple(viol['order']), viol['driver'], flags,
+                viol['mech'], [viol['k']], force_closed)
+    return got is not None
 
 
 def minimise(R, seed, viol, tier, budget_tests=60):
